@@ -433,7 +433,13 @@ pub fn gen_idprog(rng: &mut Rng) -> String {
     ));
     s.push_str(&format!("  let v3 = h{}(t);\n", w(12)));
     s.push_str(&format!("  let v4 = cl{}(mem(t));\n", w(15)));
-    s.push_str("  (v1 + v2 + g0, v3 + v4 + g1)\n}\n");
+    // several captures in different orders, builtin math (external function tables), many
+    // distinct literals (constant pools)
+    s.push_str(&format!(
+        "  let ca = t * {};\n  let cb = t + {};\n  let cc = {};\n  let fa = |x| x * ca + cb - cc;\n  let fb = |x| x * cc - cb + ca;\n  let g2 = fa(1.0) + fb(2.0) + sin(t * {}) * cos({}) + sqrt({}) + abs(0.0 - {});\n",
+        k(rng), k(rng), k(rng), k(rng), k(rng), k(rng), k(rng)
+    ));
+    s.push_str("  (v1 + v2 + g0 + g2, v3 + v4 + g1)\n}\n");
     s
 }
 
